@@ -1194,25 +1194,26 @@ fn seg_cfg(run: &mut Runner, wseed: u64, cfg: axmosdb::DBConfig, checkpoints: bo
         if checkpoints && i % 9 == 8 { run.flush(); }
     }
     for t in &tabs { run.auto(&Stmt::Select(select_all(t))); }
-    // every other workload: a table of long rows (2.5-3.5 thousand characters, growing with every rewrite because the old value
-    // stays as a version: with small pages each row continues in an overflow chain of several pages), rewritten row by row, at
-    // most twice each (a log record holds the old and the new image and must fit a 40 KiB block: LargeRowExceedsWalBlock) - chains are freed, rebuilt and, under a small cache, written back and
+    // every other workload: a table of long rows (5-8 thousand characters: with 4 KiB pages each row continues in an overflow
+    // chain of two or three pages), a third of them rewritten once (a rewrite keeps the old value as a version, and a log
+    // record holds the old and the new image and must fit a 40 KiB block: LargeRowExceedsWalBlock). The values are runs of
+    // one character, which the specification carries as (character, length). - chains are freed, rebuilt and, under a small cache, written back and
     // read again in between.  The draws are made for every configuration; caches below 16 pages skip the statements
     // (finding SmallCacheFailsStatements).
     if wseed % 2 == 1 {
         let fat_ok = cfg.cache_size >= 16;
         let def = TableDef { name: "t3".into(), cols: vec![ColDef { name: "id".into(), ty: Ty::Int, nn: false }, ColDef { name: "c1".into(), ty: Ty::Int, nn: false }, ColDef { name: "c2".into(), ty: Ty::Text, nn: false }], uniq: vec![] };
-        let long = |r: &mut R| -> V { let n = r.random_range(2500..3500); V::Text([*pick(r, &["p", "q", "r"])].repeat(n).concat()) };
+        let long = |r: &mut R| -> V { let n = r.random_range(5000..8000); V::Text([*pick(r, &["p", "q", "r"])].repeat(n).concat()) };
         if fat_ok { run.auto(&Stmt::Create(def.clone())); }
         let cols = vec![(1usize, "id".to_string()), (2usize, "c1".to_string()), (3usize, "c2".to_string())];
-        for id in 1..=32i64 {
+        for id in 1..=60i64 {
             let st = Stmt::Insert { tbl: "t3".into(), cols: cols.clone(), rows: vec![vec![V::Int(id), V::Int(r.random_range(-3..12)), long(r)]] };
             if fat_ok { run.auto(&st); }
         }
-        let t3 = Tab { def: def.clone(), next_id: 33, ids: (1..=32).collect(), updatable: true, maybe_null: vec![] };
-        let first = r.random_range(0..32i64);
-        for i in 0..56 {
-            let id = (first + 7 * i as i64) % 32 + 1;
+        let t3 = Tab { def: def.clone(), next_id: 61, ids: (1..=60).collect(), updatable: true, maybe_null: vec![] };
+        let first = r.random_range(0..60i64);
+        for i in 0..20 {
+            let id = (first + 7 * i as i64) % 60 + 1;
             let idc = col(&t3, "t3", 0, 0);
             let st = Stmt::Update { tbl: "t3".into(), set: vec![(3, "c2".into(), E::Lit(long(r)))], wher: E::Bin("eq", Box::new(idc), Box::new(E::Lit(V::Int(id)))), has_where: true };
             if fat_ok { run.auto(&st); }
